@@ -71,6 +71,10 @@ def judge(stats: Stats, base_toks, rel_text, origin):
         ("RelativeJSONPointer.to(str)", lambda: RelativeJSONPointer(rel_text).to(base_text)),
         ("JSONPointer.to(str)", lambda: JSONPointer(base_text).to(rel_text)),
         ("JSONPointer.to(RelativeJSONPointer)", lambda: JSONPointer(base_text).to(RelativeJSONPointer(rel_text))),
+        # the same base reached by other construction routes (parts are then strings, not parsed integers)
+        ("from_parts(base).to", lambda: JSONPointer.from_parts(list(base_toks)).to(rel_text)),
+        ("base.to('0').to", lambda: JSONPointer(base_text).to("0").to(rel_text)),
+        ("RelativeJSONPointer.to(from_parts(base))", lambda: RelativeJSONPointer(rel_text).to(JSONPointer.from_parts(list(base_toks)))),
     ]
     # printing a parsed relative pointer returns its text
     stats.ev()
